@@ -17,6 +17,7 @@
      items        [key, before, after, h] design-unit numbers with their bound h/2 (ScaleUpem!Within)
      fm           [key, before, after] CFF FontMatrix * upem * 10^6 (must stay put; 2 units of conversion slack)
      hbt, hbi     the same two kinds of rows from HarfBuzz observations
+   k = "raised"   op ("reorder" / "scale"), exc (exception type), ub, want: the transformation or the save after it raised
 
    The verdict is the SET of failing clauses <<clause, argument>>; clauses starting with "skip:" mark a
    case outside the modelled domain.  Operators come from Reorder.tla and ScaleUpem.tla.           *)
@@ -63,9 +64,18 @@ JScale(t) ==
     \cup {<<"hb-nothingelse", r[1]>> : r \in {r \in Range(t.hbt) : r[2] # r[3]}}
     \cup {<<"hb-scaled", r[1]>> : r \in {r \in Range(t.hbi) : NumOK(k, r) = "bad"}}
 
+(* the transformation raised an exception other than its own NotImplementedError (= declared unsupported, which
+   the harness skips and counts) on a font that the library loads and saves untransformed.  Renumbering cannot make
+   any stored field overflow, neither can scaling DOWN (every design-unit quantity shrinks in magnitude): there the
+   transformation had a representable result to produce and failed.  Scaling UP may overflow a 16-bit field of the
+   format: outside the modelled domain, skipped and counted. *)
+JRaised(t) ==
+  IF t.op = "scale" /\ t.want > t.ub THEN {<<"skip:raised-while-scaling-up", t.exc>>} ELSE {<<"raised", t.exc>>}
+
 Judge(t) ==
   CASE t.k = "reorder" -> JReorder(t)
     [] t.k = "scale" -> JScale(t)
+    [] t.k = "raised" -> JRaised(t)
     [] OTHER -> {<<"unknown-kind", t.k>>}
 
 Pending == {<<"pending", "">>}
